@@ -131,9 +131,9 @@ def check_structure(rng):
     kr = int(rng.integers(0, d + 1 - kp))
     per = idx[:kp]
     ref = idx[kp:kp + kr]
-    form = rng.choice(["array", "list", "none-if-empty"])
-    P = per if form == "array" else list(map(int, per)) if form == "list" else (per if len(per) else None)
-    Rf = ref if form == "array" else list(map(int, ref)) if form == "list" else (ref if len(ref) else None)
+    form = rng.choice(["array", "list", "none-if-empty", "tuple", "tuple"])
+    P = per if form == "array" else list(map(int, per)) if form == "list" else tuple(map(int, per)) if form == "tuple" else (per if len(per) else None)
+    Rf = ref if form == "array" else list(map(int, ref)) if form == "list" else tuple(map(int, ref)) if form == "tuple" else (ref if len(ref) else None)
     cat = catalogue()
     x = rng.choice(cat, size=(n, d))
     mix = rng.random((n, d)) < 0.5
@@ -152,9 +152,9 @@ def check_structure(rng):
         arr = view                                   # non-contiguous view with the same values
     elif layout == "dup-index":
         if P is not None and len(P):
-            P = list(P) + [P[0]] if isinstance(P, list) else np.concatenate([P, P[:1]])
+            P = list(P) + [P[0]] if isinstance(P, list) else tuple(P) + (P[0],) if isinstance(P, tuple) else np.concatenate([P, P[:1]])
         if Rf is not None and len(Rf):
-            Rf = list(Rf) + [Rf[0]] if isinstance(Rf, list) else np.concatenate([Rf, Rf[:1]])
+            Rf = list(Rf) + [Rf[0]] if isinstance(Rf, list) else tuple(Rf) + (Rf[0],) if isinstance(Rf, tuple) else np.concatenate([Rf, Rf[:1]])
     keep = np.array(arr, copy=True, order="C")
     with np.errstate(all="ignore"):
         out = apply_boundary_conditions(arr, P, Rf)
